@@ -106,6 +106,9 @@ pub struct Program {
     /// Pedersen bases shared by prover and verifier: 0 default, 1 random pair, 2 swapped
     /// default pair, 3 value base = 2·generator
     pub pc: u8,
+    /// how the generator objects were obtained: 0 `new(cap)`, 1 `new(small)` then
+    /// `increase_capacity(cap)`, 2 serialised and deserialised, 3 grown in several steps
+    pub gens: u8,
 }
 
 #[derive(Clone, Debug, Default, PartialEq, Eq, Hash)]
@@ -462,6 +465,7 @@ pub fn gen_program(ch: &mut Choices, curve: Curve, cfg: &GenCfg) -> Program {
     let party_cap = 1 + ch.weighted(&[70, 20, 10]) as u8;
     let seed = ch.u16() as u64;
     let pc = ch.weighted(&[70, 16, 7, 7]) as u8;
+    let gens = ch.weighted(&[55, 20, 12, 13]) as u8;
     let npre = ch.weighted(&[60, 30, 10]);
     let pre: Vec<(u8, Vec<u8>)> = (0..npre)
         .map(|_| {
@@ -627,7 +631,7 @@ pub fn gen_program(ch: &mut Choices, curve: Curve, cfg: &GenCfg) -> Program {
         let body: Vec<Op> = bodies[bi].iter().map(|k| fill_op(ch, &mut f, *k)).collect();
         ops[pos] = Op::Closure(body);
     }
-    Program { curve, tlabel, pre, ops, owned, cap_p, cap_v, party_cap, seed, pc }
+    Program { curve, tlabel, pre, ops, owned, cap_p, cap_v, party_cap, seed, pc, gens }
 }
 
 // ---------------------------------------------------------------------------------------
@@ -688,6 +692,7 @@ impl Program {
     }
     pub fn to_json(&self) -> Value {
         let s = self.shape();
+        let gens_name = ["new", "increase_capacity", "serialization round-trip", "grown in steps"][self.gens as usize % 4];
         let bases_name = ["default", "random pair", "swapped", "value base = 2*generator"][self.pc as usize % 4];
         json!({
             "curve": self.curve.name(),
@@ -699,6 +704,7 @@ impl Program {
             "party_capacity": self.party_cap,
             "prover_seed": self.seed,
             "pedersen_bases": bases_name,
+            "generator_objects": gens_name,
             "gates": [s.n1, s.n2],
             "ops": self.ops.iter().map(op_json).collect::<Vec<_>>(),
         })
